@@ -6,7 +6,8 @@
    Output elements are tagged with the index of the part they come from: In (j, e') out. *)
 From PV Require Import Lib.Base Model.C05 Model.C05_Spec Model.C15 Model.C15_Spec Model.C15_Hist
      Proofs.C05_lib Proofs.C15 Proofs.C15_link Proofs.C15_ex Proofs.C15_ext Proofs.C15_hist.
-From Coq Require Import Permutation.
+From PV Require Import Model.C15_Code Proofs.C15_code Model.C15_Entry Proofs.C15_entry.
+From Coq Require Import Permutation Sorted String.
 #[local] Open Scope Z_scope.
 
 (* O1: the merged part counts in the lcm of the divisions, and every element of it stands at the
@@ -522,3 +523,187 @@ Theorem nested_merge_example :
     leaves hx_tree = [hx_a; hx_b; hx_c; hx_d].
 Proof. exact nested_example_lemma. Qed.
 Print Assumptions nested_merge_example.
+
+(* ------------------------------------------------------------------ round j extension: the tables and
+   mappings AS THE CODE BUILDS THEM (Model/C15_Code.v: np.unique = sorted array without duplicates, tables
+   indexed by p_ind, sum(maximum_voices[:p_ind]) recomputed, n_previous_staves, dict(zip(unique, base +
+   arange(1, n + 1))) with Python's "last pair wins" and zip's truncation, lookups that raise KeyError) *)
+
+(* np.unique: strictly increasing, the same members as the list, as many as the set has, the same maximum *)
+Theorem np_unique_spec : forall l,
+  StronglySorted Z.lt (np_unique l) /\ (forall x, In x (np_unique l) <-> In x l) /\
+  List.length (np_unique l) = List.length (uniq l) /\ zmax_list 1 (np_unique l) = zmax_list 1 l.
+Proof. exact np_unique_spec_lemma. Qed.
+Print Assumptions np_unique_spec.
+
+(* voice_mapping / staff_mapping: for EVERY list of numbers in use and every base, the dict the code builds
+   sends a number in use to base + 1 + (how many smaller numbers are in use) -- the closed form of
+   renumbering_formulas -- and raises KeyError exactly for the numbers not in use *)
+Theorem mapping_lookup : forall l base v,
+  (In v l -> dict_get (dict_zip (np_unique l) (arange1 base (List.length (np_unique l)))) v
+             = Some (base + 1 + rank v (uniq l))) /\
+  (~ In v l -> dict_get (dict_zip (np_unique l) (arange1 base (List.length (np_unique l)))) v = None).
+Proof. exact mapping_lookup_lemma. Qed.
+Print Assumptions mapping_lookup.
+
+(* ... its keys are the sorted numbers in use and its values the contiguous window base+1 .. base+n, each once *)
+Theorem mapping_window : forall l base,
+  map fst (mapping_from (np_unique l) base) = np_unique l /\
+  map snd (mapping_from (np_unique l) base) = arange1 base (List.length (uniq l)) /\
+  NoDup (map snd (mapping_from (np_unique l) base)).
+Proof. exact mapping_window_lemma. Qed.
+Print Assumptions mapping_window.
+
+(* the tables indexed by p_ind hold the state the anchors name: the multiplier lcm / d of THAT part, its own
+   sorted arrays, and the sums over the parts BEFORE it (maximum_voices, maximum_staves, numbers of staves) *)
+Theorem code_tables_are_the_offsets : forall (all pre : list part) (p : part) (rest : list part),
+  all = pre ++ p :: rest ->
+  let T := tables_of all in
+  let i := List.length pre in
+  t_lcm T = merge_lcm all /\
+  nth i (t_mult T) 0 = merge_lcm all / snd p /\
+  nth i (t_uv T) [] = np_unique (voices_of (fst p)) /\
+  nth i (t_us T) [] = np_unique (staves_of (fst p)) /\
+  zsum (firstn i (t_maxv T)) = zsum (map maxv (map fst pre)) /\
+  zsum (firstn i (t_maxs T)) = zsum (map maxs (map fst pre)) /\
+  n_prev_staves T i = zsum (map nstaves (map fst pre)).
+Proof. exact code_tables_lemma. Qed.
+Print Assumptions code_tables_are_the_offsets.
+
+(* refinement: the merge written with the code's tables, dicts and indices IS the model every other theorem
+   of this file is about -- for every mode and every argument, including when it raises *)
+Theorem code_refines_model : forall m ts, merge_parts_code m ts = merge_parts m ts.
+Proof. exact code_refines_lemma. Qed.
+Print Assumptions code_refines_model.
+
+(* ... so every statement proved of merge_parts holds of the code-level merge *)
+Theorem code_inherits : forall (P : mode -> list tree -> result -> Prop),
+  (forall m ts, P m ts (merge_parts m ts)) -> forall m ts, P m ts (merge_parts_code m ts).
+Proof. exact code_inherits_lemma. Qed.
+Print Assumptions code_inherits.
+
+(* non-vacuity: voices first seen as 5, 2, 5, 1 (unsorted, gap, duplicate), staves None, 3, 1 (None = 1) in
+   input 0 (divisions 2), voices 7, 3 on staff 2 in input 1 (divisions 3): the tables and dicts written out,
+   and the "auto" merge computed through them *)
+Theorem code_examples_hold :
+  np_unique [5; 2; 5; 1] = [1; 2; 5] /\
+  np_unique (staves_of (fst cx_p0)) = [1; 3] /\
+  (let T := tables_of [cx_p0; cx_p1] in
+   t_lcm T = 6 /\ t_mult T = [3; 2] /\ t_uv T = [[1; 2; 5]; [3; 7]] /\ t_us T = [[1; 3]; [2]] /\
+   t_maxv T = [5; 7] /\ t_maxs T = [3; 2] /\
+   voice_mapping T 0 = [(1, 1); (2, 2); (5, 3)] /\ staff_mapping T 0 = [(1, 1); (3, 2)] /\
+   voice_mapping T 1 = [(3, 9); (7, 10)] /\ staff_mapping T 1 = [(2, 3)] /\
+   dict_get (voice_mapping T 0) 5 = Some 3 /\ dict_get (voice_mapping T 0) 3 = None) /\
+  (exists out, merge_parts_code MAuto [TPart cx_p0; TPart cx_p1] = RMerged 6 out /\
+     map (fun x : nat * elem => (fst x, e_oid (snd x), e_start (snd x), e_voice (snd x), e_staff (snd x))) out =
+     [(0%nat, 1, 0, Some 3, Some 1); (0%nat, 2, 0, Some 2, Some 2); (0%nat, 3, 6, Some 3, Some 1);
+      (0%nat, 4, 6, Some 1, Some 2); (1%nat, 5, 0, Some 10, Some 3); (1%nat, 6, 6, Some 9, Some 3)]).
+Proof. exact code_examples. Qed.
+Print Assumptions code_examples_hold.
+
+(* the statement of mapping_lookup discriminates: it fails for keys that are sorted but not deduplicated
+   (the later pair of a repeated key wins; the number even leaves the part's window) ... *)
+Theorem mapping_sorted_dups_refuted :
+  exists l base v, In v l /\
+    dict_get (mapping_from (np_unique l) base) v = Some (base + 1 + rank v (uniq l)) /\
+    dict_get (mapping_from (sorted_dups l) base) v <> Some (base + 1 + rank v (uniq l)) /\
+    ~ (exists w, dict_get (mapping_from (sorted_dups l) base) v = Some w /\ w <= base + Z.of_nat (List.length (uniq l))).
+Proof. exact sorted_dups_refuted. Qed.
+Print Assumptions mapping_sorted_dups_refuted.
+
+(* ... for np.arange(1, n) (zip drops the largest key: KeyError for a number in use) ... *)
+Theorem mapping_arange_short_refuted :
+  exists l base v, In v l /\ dict_get (mapping_short (np_unique l) base) v = None /\
+    dict_get (mapping_from (np_unique l) base) v = Some (base + 1 + rank v (uniq l)).
+Proof. exact arange_short_refuted. Qed.
+Print Assumptions mapping_arange_short_refuted.
+
+(* ... and for keys kept in the order of first appearance *)
+Theorem mapping_first_seen_refuted :
+  exists l base v, In v l /\ dict_get (mapping_from (first_seen l) base) v <> Some (base + 1 + rank v (uniq l)).
+Proof. exact first_seen_refuted. Qed.
+Print Assumptions mapping_first_seen_refuted.
+
+(* ------------------------------------------------------------------ round j extension: the head of
+   merge_parts (Model/C15_Entry.v) -- the mode as the string given, a part with ALL its quarter durations;
+   which inputs are rejected and in which order: (1) the string, (2) flattening, (3) one part: returned as it
+   is, (4) a part whose divisions change: documented exception, (5) the merge of Model/C15.v *)
+
+(* (1) ValueError exactly for a string that is none of "voice", "staff", "auto" (the docstring's "both"
+   included) -- for EVERY argument, also a single part, which is then NOT returned *)
+Theorem entry_value_error_iff : forall s ts,
+  merge_parts_entry s ts = XValueError <-> (s <> "voice" /\ s <> "staff" /\ s <> "auto")%string.
+Proof. exact entry_value_error_lemma. Qed.
+Print Assumptions entry_value_error_iff.
+
+(* (3) with one of the three modes, one part after flattening (alone, in a list, a group, nested groups) is
+   returned as it is, whatever its quarter durations are (also when its divisions change) *)
+Theorem entry_single_identity : forall s m ts p,
+  mode_of_string s = Some m -> flat_map xflatten ts = [p] -> merge_parts_entry s ts = XSingle p.
+Proof. exact entry_single_lemma. Qed.
+Print Assumptions entry_single_identity.
+
+(* (4) the documented exception exactly when not one part is given and some part has not exactly one quarter
+   duration -- in every mode *)
+Theorem entry_divisions_error_iff : forall s m ts,
+  mode_of_string s = Some m ->
+  (merge_parts_entry s ts = XDivisionsError <->
+   List.length (flat_map xflatten ts) <> 1%nat /\
+   exists p, In p (flat_map xflatten ts) /\ List.length (snd p) <> 1%nat).
+Proof. exact entry_divisions_error_lemma. Qed.
+Print Assumptions entry_divisions_error_iff.
+
+(* (5) inside the quantifier (one of the three modes, two or more parts, one divisions value each) the call
+   IS Model.C15.merge_parts on the flattened parts with that value: the part list all theorems above are about *)
+Theorem entry_merges_as_model : forall s m ts,
+  mode_of_string s = Some m ->
+  List.length (flat_map xflatten ts) <> 1%nat ->
+  (forall p, In p (flat_map xflatten ts) -> List.length (snd p) = 1%nat) ->
+  merge_parts_entry s ts = XMerge (merge_parts m (map TPart (map the_part (flat_map xflatten ts)))) /\
+  flat_map flatten (map TPart (map the_part (flat_map xflatten ts))) = map the_part (flat_map xflatten ts) /\
+  (forall p, In p (flat_map xflatten ts) -> snd p = [snd (the_part p)]).
+Proof. exact entry_merges_lemma. Qed.
+Print Assumptions entry_merges_as_model.
+
+(* the four outcomes exclude each other and cover every call: the order of the checks *)
+Theorem entry_order_of_checks : forall s ts,
+  match merge_parts_entry s ts with
+  | XValueError => mode_of_string s = None
+  | XSingle p => mode_of_string s <> None /\ flat_map xflatten ts = [p]
+  | XDivisionsError => mode_of_string s <> None /\ List.length (flat_map xflatten ts) <> 1%nat /\
+                       forallb one_division (flat_map xflatten ts) = false
+  | XMerge r => exists m, mode_of_string s = Some m /\ List.length (flat_map xflatten ts) <> 1%nat /\
+                       forallb one_division (flat_map xflatten ts) = true /\
+                       r = merge_parts m (map TPart (map the_part (flat_map xflatten ts)))
+  end.
+Proof. exact entry_order_lemma. Qed.
+Print Assumptions entry_order_of_checks.
+
+(* non-vacuity: a part whose divisions change (4, then 8) alone: returned as it is; "both": ValueError for one
+   part and for two; that part in a group next to another: the exception; no part: raises; divisions 2 and 3: 6 *)
+Theorem entry_examples_hold :
+  merge_parts_entry "voice" [XPart en_two] = XSingle en_two /\
+  merge_parts_entry "both" [XPart en_two] = XValueError /\
+  merge_parts_entry "both" [XPart en_a; XPart en_b] = XValueError /\
+  merge_parts_entry "auto" [XGroup [XPart en_a; XPart en_two]] = XDivisionsError /\
+  merge_parts_entry "staff" [] = XMerge RRaise /\
+  (exists out, merge_parts_entry "voice" [XPart en_a; XGroup [XPart en_b]] = XMerge (RMerged 6 out) /\
+     map (fun x : nat * elem => (fst x, e_oid (snd x), e_start (snd x), e_end (snd x), e_voice (snd x))) out =
+     [(0%nat, 2, 0, Some 6, Some 1); (1%nat, 3, 0, Some 6, Some 2)]).
+Proof. exact entry_examples. Qed.
+Print Assumptions entry_examples_hold.
+
+(* entry_value_error_iff discriminates: with the one-part shortcut taken first an unknown mode goes unnoticed *)
+Theorem entry_identity_first_refuted :
+  exists s ts p, (s <> "voice" /\ s <> "staff" /\ s <> "auto")%string /\
+    merge_parts_entry s ts = XValueError /\ entry_identity_first s ts = XSingle p.
+Proof. exact identity_first_refuted. Qed.
+Print Assumptions entry_identity_first_refuted.
+
+(* entry_divisions_error_iff discriminates: without check (4) a part whose divisions change is merged with its
+   first quarter duration *)
+Theorem entry_no_divisions_check_refuted :
+  exists ts L out, merge_parts_entry "voice" ts = XDivisionsError /\
+    entry_no_divisions_check "voice" ts = XMerge (RMerged L out).
+Proof. exact no_divisions_check_refuted. Qed.
+Print Assumptions entry_no_divisions_check_refuted.
